@@ -94,7 +94,7 @@ def conform(ctx, label, executions, run_harness, trace_module, trace_cfg, predic
         executions = executions[:k]
         log = log[:exs[-1][0] - 1] if k > 0 else []
         extra = 0
-        if rest and _depth < 4:
+        if rest and _depth < 4 and not to:      # after a hang the rest would most likely hang too: one deadline is enough
             extra = conform(ctx, label + "+", rest, run_harness, trace_module, trace_cfg, predict_cfg, key_fn, max_report, tlc_timeout, env, heap,
                             crash_is_violation, meta, end_op, _depth + 1)
         if not executions:
